@@ -21,11 +21,26 @@ func NewCond(l Locker) *Cond { return sync.NewCond(l) }
 
 const pollEvery = time.Microsecond
 
+// wait sleeps (on the fake clock) with exponential back-off, capped so that a lock that is
+// held across long simulated times does not turn into a busy loop.
+type waiter struct{ d time.Duration }
+
+func (w *waiter) wait() {
+	if w.d == 0 {
+		w.d = pollEvery
+	}
+	time.Sleep(w.d)
+	if w.d < 10*time.Millisecond {
+		w.d *= 2
+	}
+}
+
 type Mutex struct{ m sync.Mutex }
 
 func (m *Mutex) Lock() {
+	var w waiter
 	for !m.m.TryLock() {
-		time.Sleep(pollEvery)
+		w.wait()
 	}
 }
 func (m *Mutex) TryLock() bool { return m.m.TryLock() }
@@ -34,15 +49,17 @@ func (m *Mutex) Unlock()       { m.m.Unlock() }
 type RWMutex struct{ m sync.RWMutex }
 
 func (m *RWMutex) RLock() {
+	var w waiter
 	for !m.m.TryRLock() {
-		time.Sleep(pollEvery)
+		w.wait()
 	}
 }
 func (m *RWMutex) TryRLock() bool { return m.m.TryRLock() }
 func (m *RWMutex) RUnlock()       { m.m.RUnlock() }
 func (m *RWMutex) Lock() {
+	var w waiter
 	for !m.m.TryLock() {
-		time.Sleep(pollEvery)
+		w.wait()
 	}
 }
 func (m *RWMutex) TryLock() bool { return m.m.TryLock() }
@@ -61,8 +78,9 @@ type Once struct {
 }
 
 func (o *Once) Do(f func()) {
+	var w waiter
 	for !o.mu.TryLock() {
-		time.Sleep(pollEvery)
+		w.wait()
 	}
 	defer o.mu.Unlock()
 	if o.done {
